@@ -195,6 +195,34 @@ def check_C13(run):
             nv += 1
             if nv <= 25:
                 run.violation("model-mismatch", "search report differs from the model's", {"request": rq, "implementation": x, "model": b}, found_input=False)
+    # node budgets that expire anywhere in the tree (inside null-move and reduced subtrees too): many budgets on
+    # middlegame roots, implementation only (state untouched, same report when repeated)
+    rng = run.rng
+    rich = ["rnbqkbnr/pppppppp/8/8/8/8/PPPPPPPP/RNBQKBNR w KQkq - 0 1", "r3k2r/p1ppqpb1/bn2pnp1/3PN3/1p2P3/2N2Q1p/PPPBBPPP/R3K2R w KQkq - 0 1",
+            "r1bqkbnr/pppp1ppp/2n5/4p3/2B1P3/5N2/PPPP1PPP/RNBQK2R b KQkq - 3 3", "r4rk1/1pp1qppp/p1np1n2/2b1p1B1/2B1P1b1/P1NP1N2/1PP1QPPP/R4RK1 w - - 0 10",
+            "2rq1rk1/pp1bppbp/3p1np1/8/3NP3/1BN1BP2/PPPQ2PP/2KR3R b - - 0 1"]
+    sweep = []
+    for _ in range(1500 if run.tier == "thorough" else 260):
+        f = rng.choice(rich)
+        sweep.append("root\t0\t" + f + "\t" + ("" if rng.random() < 0.7 else "") + "\t1\tnodes:" + str(rng.randrange(1500, 45000)))
+    s1, _ = vlib.run_impl_par(sweep)
+    s2, _ = vlib.run_impl_par(list(reversed(sweep)))
+    s2 = list(reversed(s2))
+    for rq, x, y in zip(sweep, s1, s2):
+        run.note_case(rq, "node-budget-sweep")
+        if x.startswith(("PANIC", "DIED")):
+            nv += 1
+            run.violation("panic", "search panics", {"request": rq, "implementation": x})
+        elif "hist_same=0" in x or "POS-CHANGED" in x:
+            nv += 1
+            if nv <= 25:
+                run.violation("state-changed", "the search changed the position or the game history it was given",
+                              {"request": rq, "implementation": x[-300:], "repro": "printf '" + rq.replace("\t", "\\t") + "\\n' | .build/cargo/release/rawr_harness /dev/stdout"})
+        elif strip_ms(x) != strip_ms(y):
+            nv += 1
+            if nv <= 25:
+                run.violation("not-reproducible", "the same search from an identically initialised table gave two different reports",
+                              {"request": rq, "first": x[-300:], "second": y[-300:]})
     run.cov["traces_validated_against_impl"] = len(reqs)
     run.sample({"request": reqs[0], "implementation": a1[0][:400]})
     run.cov["explanation"] = ("search_preserves_history (model: negamax and root return the history they were given) proved by induction on "
@@ -269,6 +297,26 @@ def check_C14(run):
         if d.get("ms") is None or d["ms"] > budget + 250:
             nv += 1
             run.violation("time-budget", f"answered after {d.get('ms')} ms with a budget of {budget} ms", {"request": rq, "implementation": a})
+    # node limits that coincide with the node count at the end of an iteration k >= 2: that iteration must not be reported
+    probe_roots = [m[0] for m in meta][: (80 if th else 25)] + ["rnbqkbnr/pppppppp/8/8/8/8/PPPPPPPP/RNBQKBNR w KQkq - 0 1"]
+    pr, _ = vlib.run_impl_par(["root\t0\t" + f + "\t\t1\tdepth:3" for f in probe_roots])
+    exact = []
+    for f, o in zip(probe_roots, pr):
+        d = parse_search(o)
+        for i in d.get("infos", []):
+            if int(i["d"]) >= 2:
+                exact.append((f, int(i["n"]), int(i["d"])))
+    er, _ = vlib.run_impl_par(["root\t0\t" + f + "\t\t1\tnodes:" + str(n) for f, n, _ in exact])
+    for (f, n, k), o in zip(exact, er):
+        run.note_case(("exact-nodes", f, n), "nodes-exact")
+        d = parse_search(o)
+        late = [(i["d"], i["n"]) for i in d.get("infos", []) if int(i["d"]) >= 2 and int(i["n"]) >= n]
+        if late:
+            nv += 1
+            if nv <= 25:
+                run.violation("limit-or-coherence", f"node limit {n}: iteration(s) {late} reported although {n} nodes were already spent",
+                              {"fen": f, "limit": f"nodes:{n}", "implementation": o,
+                               "repro": "printf 'root\\t0\\t" + f + "\\t\\t1\\tnodes:" + str(n) + "\\n' | .build/cargo/release/rawr_harness /dev/stdout"})
     dcap = parse_search(impl[-1])
     depths = [int(i["d"]) for i in dcap.get("infos", [])]
     run.note_case(("cap",), "depth-cap")
